@@ -187,6 +187,7 @@ func newRun(conf sconf) (*srun, string) {
 	}
 	ru.g.mu.Lock()
 	ru.g.on = true
+	ru.g.perWrite = !conf.coal // the direct writer arms the deadline for every Write, the coalescer once per flush
 	ru.g.mu.Unlock()
 	return ru, ""
 }
@@ -224,7 +225,7 @@ func (ru *srun) finish() {
 	}()
 	select {
 	case <-done:
-	case <-time.After(30 * time.Second):
+	case <-time.After(120 * time.Second):
 		_, _, dump := snapshot()
 		os.WriteFile("/tmp/c07_sched_leak.txt", []byte(dump), 0o644)
 		if ru.fatal == "" {
@@ -588,28 +589,155 @@ func replaySched(line string) string {
 type plan struct {
 	n        int    // requests to start
 	cutWrite int    // which Write (in order of entering the transport) is cut; -1 none
-	cutClass int    // 0 at offset 0, 1 inside the header, 2 inside the body, 3 last byte missing
+	cutClass int    // 0 at offset 0, 1 inside the header, 2 inside the body, 3 last byte missing, 4 at / next to a 4 KiB boundary inside the frame, 5 whole frame delivered, then the error
 	cutKind  string // error kind of the cut
 	follow   byte   // after the cut: q another request, h heartbeat, x close, 0 nothing special
 	hold     bool   // keep the first Write inside the transport mid-frame while the others are started
+	sizeMode string // how the frame sizes of the scenario were drawn (class label)
+}
+
+// ---- frame sizes. The writers' behaviour must not depend on the size of a frame, so the scenarios draw the TOTAL
+// frame length (header included) from classes around the sizes at which buffers, pages and length fields change:
+// the statement padding that gives that length is computed from the length of the padding-0 frame of the same
+// protocol version, measured once on the real code (frameBase).
+
+var sizeBoundaries = []int{4096, 8192, 16384, 65536}
+
+var (
+	baseMu  sync.Mutex
+	baseLen = map[int]int{}
+)
+
+// frameBase: total length of the QUERY frame of request 1 with padding 0 (measured through the gated transport).
+func frameBase(proto int) int {
+	baseMu.Lock()
+	defer baseMu.Unlock()
+	if b, ok := baseLen[proto]; ok {
+		return b
+	}
+	ru, fatal := newRun(sconf{proto: proto})
+	if ru == nil {
+		fmt.Fprintln(os.Stderr, "c07: calibration:", fatal)
+		os.Exit(3)
+	}
+	ru.exec("s1")
+	b := 0
+	if w := ru.heldOf(1); w != nil {
+		b = len(w.p)
+	}
+	ru.finish()
+	if b == 0 {
+		fmt.Fprintln(os.Stderr, "c07: calibration: the frame of request 1 did not enter the transport")
+		os.Exit(3)
+	}
+	baseLen[proto] = b
+	return b
+}
+
+// padFor: statement padding of request id whose frame is `total` bytes long (0 when the minimal frame is longer).
+func padFor(proto, id, total int) int {
+	p := total - frameBase(proto) - (len(strconv.Itoa(id)) - 1)
+	if p < 0 {
+		return 0
+	}
+	return p
+}
+
+// drawTotal draws a total frame length of the given class.
+func drawTotal(r *vh.Rng, class string) int {
+	switch class {
+	case "tiny":
+		return 0 // minimal frame
+	case "small":
+		return 40 + r.Intn(160)
+	case "edge": // exactly at / next to a boundary
+		b := sizeBoundaries[r.Intn(len(sizeBoundaries))]
+		if r.Intn(3) == 0 {
+			b = 4096
+		}
+		return b - 1 + r.Intn(3)
+	case "mid": // anywhere between the boundaries
+		return 200 + r.Intn(70000)
+	case "huge":
+		return 1<<20 - 2 + r.Intn(5)
+	}
+	return 0
+}
+
+// genSizes fills conf.sizes (paddings of requests 1..n) and returns the label of the mix.
+func genSizes(r *vh.Rng, conf *sconf, n int) string {
+	mode := []string{"small", "small", "one-large", "one-large", "two-large", "mixed", "all-edge"}[r.Intn(7)]
+	large := func() string {
+		switch k := r.Intn(20); {
+		case k == 0:
+			return "huge"
+		case k < 13:
+			return "edge"
+		default:
+			return "mid"
+		}
+	}
+	cls := make([]string, n)
+	for i := range cls {
+		cls[i] = []string{"tiny", "small", "small"}[r.Intn(3)]
+	}
+	switch mode {
+	case "one-large":
+		cls[r.Intn(imin(n, 3))] = large()
+	case "two-large":
+		a := r.Intn(imin(n, 3))
+		b := (a + 1 + r.Intn(imin(n, 4)-1)) % imin(n, 4)
+		cls[a], cls[b] = large(), large()
+	case "mixed":
+		for i := range cls {
+			if r.Intn(2) == 0 {
+				cls[i] = large()
+			}
+		}
+	case "all-edge":
+		for i := range cls {
+			cls[i] = "edge"
+		}
+	}
+	for i := range cls {
+		if mode == "small" {
+			conf.sizes = append(conf.sizes, r.Intn(70)) // the paddings of the earlier campaigns
+			continue
+		}
+		conf.sizes = append(conf.sizes, padFor(conf.proto, i+1, drawTotal(r, cls[i])))
+	}
+	return mode
+}
+
+func imin(a, b int) int {
+	if a < b {
+		return a
+	}
+	return b
 }
 
 func genPlan(r *vh.Rng, conf *sconf) plan {
 	p := plan{n: 2 + r.Intn(4), cutWrite: -1}
 	if r.Intn(5) != 0 {
 		p.cutWrite = r.Intn(3)
-		p.cutClass = r.Intn(4)
+		p.cutClass = r.Intn(6)
 		p.cutKind = errKinds[r.Intn(len(errKinds))]
 	}
 	p.follow = []byte{'q', 'q', 'h', 'x', 0}[r.Intn(5)]
 	p.hold = r.Intn(3) != 0
-	for i := 0; i < p.n+2; i++ {
-		conf.sizes = append(conf.sizes, r.Intn(70))
-	}
+	p.sizeMode = genSizes(r, conf, p.n+2)
 	return p
 }
 
 func (ru *srun) target(w *gwrite, p plan) int {
+	t := ru.target0(w, p)
+	if t > len(w.p) { // a Write shorter than a frame header (not a behaviour of the unchanged writers)
+		t = len(w.p)
+	}
+	return t
+}
+
+func (ru *srun) target0(w *gwrite, p plan) int {
 	if w.idx != p.cutWrite {
 		return len(w.p)
 	}
@@ -624,6 +752,14 @@ func (ru *srun) target(w *gwrite, p plan) int {
 			return hl + 1 + (len(w.p)*7+w.idx)%(len(w.p)-hl-1)
 		}
 		return hl
+	case 4:
+		if len(w.p) > 4097 { // 4 KiB boundaries inside the frame: one before, at, one after
+			k := 1 + (len(w.p)+w.idx)%((len(w.p)-2)/4096)
+			return k*4096 - 1 + (len(w.p)/7+w.idx)%3
+		}
+		return len(w.p) / 2
+	case 5:
+		return len(w.p)
 	default:
 		return len(w.p) - 1
 	}
@@ -643,7 +779,7 @@ func runSched(r *vh.Rng, conf sconf) (string, string, string, string) {
 	cutDone := false
 	maxHeld := 0
 	tickRefused := false
-	for step := 0; step < 300 && ru.fatal == ""; step++ {
+	for step := 0; step < 600 && ru.fatal == ""; step++ {
 		type cand struct {
 			tok string
 			wt  int
@@ -676,10 +812,16 @@ func runSched(r *vh.Rng, conf sconf) (string, string, string, string) {
 					hl := memcluster.HeaderLen(ru.conf.proto)
 					if w.off < hl && hl-w.off <= rem {
 						n = hl - w.off // exactly the header
+					} else if pg := 4096 - w.off%4096; pg <= rem {
+						n = pg // up to the next 4 KiB boundary of the frame
+					}
+				case 2:
+					if rem > 4096 && r.Intn(2) == 0 {
+						n = 1 + r.Intn(4097) // a large frame goes out in many pieces
 					}
 				}
 				cs = append(cs, cand{fmt.Sprintf("p%d:%d", id, n), 6})
-			} else if tg == len(w.p) {
+			} else if tg == len(w.p) && !(w.idx == p.cutWrite && p.cutClass == 5) {
 				cs = append(cs, cand{fmt.Sprintf("e%d:ok", id), 6})
 			} else {
 				wt := 6
@@ -786,7 +928,7 @@ func runSched(r *vh.Rng, conf sconf) (string, string, string, string) {
 	if ru.fatal != "" {
 		return ru.fatal, "", "", "fatal"
 	}
-	cls := "sched/"
+	cls := "sched/sizes=" + p.sizeMode + "/"
 	if conf.coal {
 		cls += "coalesce"
 	} else {
@@ -798,7 +940,7 @@ func runSched(r *vh.Rng, conf sconf) (string, string, string, string) {
 		cls += "/wt=0"
 	}
 	if p.cutWrite >= 0 && cutDone {
-		cls += fmt.Sprintf("/cut%d@%s:%s", p.cutWrite, []string{"0", "hdr", "body", "last"}[p.cutClass], p.cutKind)
+		cls += fmt.Sprintf("/cut%d@%s:%s", p.cutWrite, []string{"0", "hdr", "body", "last", "4k", "end"}[p.cutClass], p.cutKind)
 	} else {
 		cls += "/nocut"
 	}
@@ -821,8 +963,11 @@ func (ru *srun) drain() {
 	for i := 0; i < 100 && ru.fatal == ""; i++ {
 		held := ru.g.heldSnapshot()
 		if len(held) > 0 {
+			// the NEWEST Write first: the writers never have two Writes inside the transport (mutual exclusion
+			// theorem), so for them the order is immaterial; a writer that lets a second Write in has it served
+			// while the older one is still incomplete, which puts the interleaving on the wire
 			sort.Slice(held, func(i, j int) bool { return held[i].idx < held[j].idx })
-			w := held[0]
+			w := held[len(held)-1]
 			id := ru.wreq[w]
 			switch {
 			case ru.g.isClosed():
@@ -850,7 +995,9 @@ func (ru *srun) drain() {
 }
 
 func runTemplate(conf sconf, cutFrame, cutOff int, kind string) (sop, ans, top, cls string, ok bool) {
-	conf.sizes = []int{10, 25, 3, 7}
+	if conf.sizes == nil {
+		conf.sizes = []int{10, 25, 3, 7}
+	}
 	ru, fatal := newRun(conf)
 	if ru == nil {
 		return fatal, "", "", "fatal", true
@@ -866,6 +1013,9 @@ func runTemplate(conf sconf, cutFrame, cutOff int, kind string) (sop, ans, top, 
 	for f := 1; f <= 3 && ru.fatal == ""; f++ {
 		w := ru.heldOf(f)
 		if w == nil {
+			if len(ru.g.heldSnapshot()) > 0 { // something else is inside the transport (a Write that is not whole frames):
+				break // let it through; the monitor judges the byte stream
+			}
 			ru.fatal = fmt.Sprintf("fatal template: frame %d is not inside the transport after: %s", f, strings.Join(ru.events, " "))
 			break
 		}
@@ -901,6 +1051,121 @@ func runTemplate(conf sconf, cutFrame, cutOff int, kind string) (sop, ans, top, 
 		return "", "", ru.traceLine(), cls + "/own-heartbeat", true
 	}
 	return ru.schedLine(), ru.answer(), ru.traceLine(), cls, true
+}
+
+// ---- size templates: a frame of `totals[0]` bytes is held inside the transport after `holdOff` of its bytes while
+// the other requests (frames of totals[1..]) are started and the flush timer is tried after each; every Write that
+// enters the transport meanwhile is served at once and whole (drain serves the newest Write first); then the held
+// Write gets the rest of its bytes and ends with `kind` ("ok", or an error kind after `holdOff` bytes only); then
+// everything is drained and one more request is made. With writers that keep the socket to one Write at a time the
+// other requests simply wait (semaphore / the flusher is busy); the template exists for the sizes: a path taken
+// only by frames above some size is exercised with another request outstanding in every combination of
+// {large first, small first, two large} x hold position x writer.
+func runSizeTemplate(conf sconf, totals []int, holdOff int, kind string) (sop, ans, top, cls string) {
+	conf.sizes = nil
+	for i, t := range totals {
+		conf.sizes = append(conf.sizes, padFor(conf.proto, i+1, t))
+	}
+	conf.sizes = append(conf.sizes, 5)
+	ru, fatal := newRun(conf)
+	if ru == nil {
+		return fatal, "", "", "fatal"
+	}
+	defer ru.finish()
+	ru.exec("s1")
+	if conf.coal {
+		ru.exec("t") // refused when request 1 did not go through the queue
+	}
+	w := ru.heldOf(1)
+	if w == nil && len(ru.g.heldSnapshot()) > 0 { // a Write that is not whole frames: let it through, the monitor judges
+		ru.drain()
+		ru.exec("s2")
+		ru.drain()
+		if ru.fatal != "" {
+			return ru.fatal, "", "", "fatal"
+		}
+		return ru.schedLine(), ru.answer(), ru.traceLine(), "size/unframed-write"
+	}
+	if w == nil {
+		return fmt.Sprintf("fatal size template: frame 1 is not inside the transport after: %s (%s)", strings.Join(ru.events, " "), conf.header()), "", "", "fatal"
+	}
+	if holdOff >= len(w.p) {
+		holdOff = len(w.p) - 1
+	}
+	if holdOff > 0 {
+		ru.exec(fmt.Sprintf("p1:%d", holdOff))
+	}
+	others := func() {
+		for i := 0; i < 50 && ru.fatal == ""; i++ {
+			var o *gwrite
+			for _, h := range ru.g.heldSnapshot() {
+				if h != w && (o == nil || h.idx > o.idx) {
+					o = h
+				}
+			}
+			if o == nil {
+				return
+			}
+			id := ru.wreq[o]
+			if o.off < len(o.p) && !ru.g.isClosed() {
+				ru.exec(fmt.Sprintf("p%d:%d", id, len(o.p)-o.off))
+			}
+			if ru.g.isClosed() {
+				ru.exec(fmt.Sprintf("e%d:pipe", id))
+			} else {
+				ru.exec(fmt.Sprintf("e%d:ok", id))
+			}
+		}
+	}
+	for id := 2; id <= len(totals) && ru.fatal == ""; id++ {
+		ru.exec(fmt.Sprintf("s%d", id))
+		others()
+		if conf.coal {
+			ru.exec("t")
+			others()
+		}
+	}
+	if ru.fatal == "" {
+		if kind == "ok" {
+			if w.off < len(w.p) {
+				ru.exec(fmt.Sprintf("p1:%d", len(w.p)-w.off))
+			}
+			ru.exec("e1:ok")
+		} else {
+			ru.exec("e1:" + kind)
+		}
+	}
+	ru.drain()
+	ru.exec(fmt.Sprintf("s%d", len(totals)+1))
+	ru.drain()
+	if ru.fatal != "" {
+		return ru.fatal, "", "", "fatal"
+	}
+	cls = "size/direct"
+	if conf.coal {
+		cls = "size/coalesce"
+	}
+	cls += "/" + sizeLabel(totals[0])
+	for _, t := range totals[1:] {
+		cls += "+" + sizeLabel(t)
+	}
+	cls += "/" + kind
+	if ru.anonSeen {
+		return "", "", ru.traceLine(), cls + "/own-heartbeat"
+	}
+	return ru.schedLine(), ru.answer(), ru.traceLine(), cls
+}
+
+func sizeLabel(t int) string {
+	switch {
+	case t < 4095:
+		return "small"
+	case t <= 4097, t >= 8191 && t <= 8193, t >= 16383 && t <= 16385, t >= 65535 && t <= 65537:
+		return strconv.Itoa(t)
+	case t >= 1<<20-8:
+		return "1MiB"
+	}
+	return "large"
 }
 
 // normLine: closeWithError tells the outstanding calls in Go map order, so WHEN a request that is merely told
